@@ -203,11 +203,13 @@ CkOpenM(sz) ==  \* open main (w, truncate) for the new state
     /\ main' = Fresh(have, sz) /\ pc' = "ck_write"
     /\ UNCHANGED <<env, old, have, pending, from, wiped, rec, computed, completed, lastDone, mayRedo, redo, crashes, partial>>
 
-\* the budget is exhausted and everything is collected: constructSurrogate returns
+\* the budget is exhausted and everything is collected: constructSurrogate removes the backup (the main file holds
+\* the last saved state; a later run that deletes only the main file to start over must not pick this one up) and returns
 Finish ==
     /\ pc = "loop" /\ pending = {} /\ Cardinality(have) = env.budget
     /\ pc' = "done"
-    /\ UNCHANGED <<env, main, old, have, pending, from, wiped, rec, computed, completed, lastDone, mayRedo, redo, crashes, partial>>
+    /\ old' = IF SCHEME = "coded" THEN old ELSE NoFile
+    /\ UNCHANGED <<env, main, have, pending, from, wiped, rec, computed, completed, lastDone, mayRedo, redo, crashes, partial>>
 
 \* ---- the process dies
 Die ==
